@@ -5,7 +5,7 @@ import os
 import re
 
 from vf.extract import extract_item, ExtractError
-from vf.unit import Unit
+from vf.unit import Unit, pull_in_helpers, split_or_pattern_guard_arms
 
 HERE = os.path.dirname(os.path.abspath(__file__))
 
@@ -145,6 +145,7 @@ def build():
     T = 'circuit/src/symbolic/targets.rs'
     rb = u.extract(T, r"impl ColumnsTargets<'_>", 'resolve_base_var', 'ColumnsTargets::resolve_base_var')
     rb.rewrite('R9', '_ => panic!("Cannot have expressions involving more than two rows."),', '_ => { assert(false); ExprId(0) }')
+    split_or_pattern_guard_arms(rb)
     rb.requires('two_row_window', '(*entry matches BaseEntry::Preprocessed { offset } ==> offset <= 1) && (*entry matches BaseEntry::Main { offset } ==> offset <= 1)')
     rb.requires('index_in_range', 'index < base_slice(*self, *entry).len()')
     rb.ensures('reads_the_slice_the_native_folder_reads', 'ret == base_slice(*self, *entry)[index as int]')
@@ -173,6 +174,8 @@ pub open spec fn ext_slice(c: ColumnsTargets<'_>, e: ExtEntry) -> Seq<ExprId> {
 impl ColumnsTargets<'_> {''')
     u.emit(rb)
     u.emit(re_)
+    for h_ in pull_in_helpers(u, rb, T, r"impl ColumnsTargets<'_>", {'resolve_base_var', 'resolve_ext_var'}, 'ColumnsTargets') + pull_in_helpers(u, re_, T, r"impl ColumnsTargets<'_>", {'resolve_base_var', 'resolve_ext_var'}, 'ColumnsTargets'):
+        u.emit(h_)
     u.text('}\n}')
 
     # ---------------------------------------------------------------- compile_base
